@@ -99,7 +99,9 @@ def generate(seed, tier):
             deg = [0] * N
             for _ in range(total):
                 deg[rng.randrange(N)] += 1
-        case["max_size"] = max(case["max_size"], max(dim))
+        if rng.random() < 0.7:
+            case["max_size"] = max(case["max_size"], max(dim))
+        # else: the model's explicit maximum size may lie below a conditioned size (the sequences are what binds then)
         if rng.random() < 0.35:
             # the sampler object is reused: a first sample() call on a realisable pair precedes the one that is checked
             d0 = {}
